@@ -451,6 +451,55 @@ pub fn drive_durations(s: &mut Session, rng: &mut Rng, runs: usize) {
     }
 }
 
+/// sustain level exactly at a bound (0.0 / 1.0) through complete attack and decay phases of several lengths,
+/// then moved while the gate is still held, a re-trigger from exactly full scale, a release from exactly zero
+pub fn drive_sustain_bounds(s: &mut Session, rng: &mut Rng) {
+    for &fs in [100.0f32, 1000.0, 48000.0, 192000.0].iter() {
+        for &level in [0.0f32, 1.0, -0.0, 1.0e-30].iter() {
+            for ticks in [3u64, 40, 1200] {
+                if ticks > 100 && (fs < 500.0 || fs > 100_000.0 || level.to_bits() > 0x3f80_0000) {
+                    continue;
+                }
+                s.start(fs);
+                let t = (ticks as f64 / fs as f64) as f32;
+                s.set_time('a', t);
+                s.set_time('d', t);
+                s.set_time('r', t);
+                s.set_sustain(level);
+                s.gate_on();
+                let mut guard = 0;
+                while s.alive && s.phase() != 3 && guard < 3 * ticks + 50 {
+                    s.tick();
+                    guard += 1;
+                }
+                for _ in 0..3 {
+                    s.tick();
+                }
+                // the gate is still held: a new sustain level is taken up
+                s.set_sustain(0.6);
+                s.tick();
+                s.tick();
+                s.set_sustain(level);
+                s.tick();
+                if rng.chance(1, 2) {
+                    // re-trigger from the sustain level (exactly 1.0 or 0.0)
+                    s.gate_on();
+                    for _ in 0..(ticks / 2 + 2) {
+                        s.tick();
+                    }
+                }
+                s.gate_off();
+                let mut guard = 0;
+                while s.alive && s.phase() != 0 && guard < 3 * ticks + 50 {
+                    s.tick();
+                    guard += 1;
+                }
+                s.tick();
+            }
+        }
+    }
+}
+
 /// a time changed in the middle of its own phase to a value that is bit-identical to another current
 /// time (and much longer / shorter than the old one): only the remaining part of the phase is rescaled
 pub fn drive_retime(s: &mut Session, rng: &mut Rng) {
@@ -630,6 +679,7 @@ pub fn record(driver: &str, seed: u64, thorough: bool, out: &mut Out) -> Stats {
         "durations" => {
             drive_durations(&mut s, &mut rng, if thorough { 1500 } else { 120 });
             drive_retime(&mut s, &mut rng);
+            drive_sustain_bounds(&mut s, &mut rng);
         }
         "cells" => drive_cells(&mut s, &mut rng, thorough),
         "extreme" => drive_extreme(&mut s, &mut rng, if thorough { 400 } else { 60 }),
